@@ -206,3 +206,20 @@ report("D10", refused > 0 or step is not None,
        f"{refused}/200 exact rank-2 PSD 4x4 matrices refused; mass/z/v/a model refused at prediction {step}")
 
 print("present:", [n for n, p in out if p])
+
+# D12 -----------------------------------------------------------------------------------
+# symmetry gate: np.allclose(P, P.T) is relative per element, not relative to the matrix; a covariance of magnitude 1e12 whose small
+# entries carry rounding asymmetry ~1e-5 (1e-17 relative to the matrix) is refused as invalid
+ekf12 = python.compile_ekf(mm, {thrust: 1.0}, {"simple": {tp["v"]: tp["v"]}}, {"simple": {tp["v"]: 1000.0}},
+                           config=python.Config(innovation_filtering=None))
+st, cv = ekf12.State(), ekf12.Covariance(mass=1e12, z=1e12, v=1e12, a=1e12)
+refused = None
+try:
+    for step in range(1, 40):
+        st, cv = ekf12.process_model(0.1, st, cv, ekf12.Control())
+        st, cv = ekf12.sensor_model(st, cv, sensor_key="simple", sensor_reading=ekf12.make_reading("simple", v=0.0))
+except AssertionError as e:
+    asym = float(np.max(np.abs(cv.data - cv.data.T)))
+    refused = (step, asym, float(np.max(np.abs(cv.data))))
+report("D12", refused is not None, f"large-magnitude covariance refused by the symmetry gate at step/asymmetry/magnitude {refused}")
+print("present:", [n for n, p in out if p])
